@@ -199,4 +199,92 @@ class OperEngine(c01.CallEngine):
     return {'obs': obs, 'fails': fails[:3], 'nontrivial': nontrivial, 'tags': tags}
 
 
-ENGINES = [OperEngine()]
+class OperDynEngine(Engine):
+  """the replay clause under DYNAMIC registration: configs written against real module objects (the C19 universe:
+  several files, every import form, aliases, colliding bound names, references to other configurables), every bound
+  function called under its scope, operative_config_str() parsed into the cleared configuration, the same calls
+  repeated: same arguments, same text.  Implementation only (the operative model has static registration; the header
+  and selector spelling are modelled and proved in C19 / C06)."""
+  name = 'operative-dynamic'
+  model = False
+
+  def budget(self, tier):
+    return 150 if tier == 'quick' else 4000
+
+  def corpus(self):
+    from harness.props import c19
+    return [[[c19.DYN, ['import', 'pkga.util', False, 'u'], ['bind', '', 'u.f', 'x', 3], ['bind', 's1', 'u.g', 'r', [[], 'u.f']]],
+             [c19.DYN, ['import', 'pkgb.util', False, 'u'], ['bind', '', 'u.f', 'y', 4], ['bind', '', 'u.f', 'r', [[], 'u.f']]]]]
+
+  def gen(self, rng, tier):
+    from harness.props import c19
+    g = c19.DynEngine()
+    while True:
+      case = g.gen(rng, tier)
+      if isinstance(case, list):
+        return case
+
+  def shrink(self, case):
+    for i in range(len(case)):
+      if len(case) > 1:
+        yield case[:i] + case[i + 1:]
+      for j in range(len(case[i])):
+        yield case[:i] + [case[i][:j] + case[i][j + 1:]] + case[i + 1:]
+
+  def impl(self, case):
+    import inspect
+    from harness.props import c19
+    gin = C.fresh_gin()
+    cfg = gin.config
+    w = c19.World()
+    fails, tags = [], []
+    try:
+      try:
+        for stmts in case:
+          gin.parse_config(c19.render(stmts))
+      except Exception as e:  # pylint: disable=broad-except
+        return {'obs': T('ParseError', type(e).__name__), 'fails': [], 'nontrivial': False, 'tags': ['parse-error']}
+
+      def canon(v):
+        if isinstance(v, dict):
+          return sorted((k, canon(x)) for k, x in v.items())
+        if callable(v):
+          c = cfg._inverse_lookup(v, allow_decorators=True)  # pylint: disable=protected-access
+          return ('configurable of', id(c.wrapped)) if c is not None else ('callable', id(v))
+        return v
+      targets = [(s, q) for (s, q) in cfg._CONFIG  # pylint: disable=protected-access
+                 if q in cfg._REGISTRY and inspect.isfunction(cfg._REGISTRY[q].wrapped) and not q.startswith('gin.')]  # pylint: disable=protected-access
+
+      def run_calls():
+        out = []
+        for s, q in targets:
+          try:
+            with gin.config_scope(s):
+              out.append(canon(gin.get_configurable(q)()))
+          except Exception as e:  # pylint: disable=broad-except
+            out.append('raised %s: %s' % (type(e).__name__, str(e)[:80]))
+        return out
+      first = run_calls()
+      text = gin.operative_config_str()
+      nrefs = sum(1 for d in cfg._CONFIG.values() for v in d.values() if isinstance(v, cfg.ConfigurableReference))  # pylint: disable=protected-access
+      gin.clear_config()
+      try:
+        gin.parse_config(text)
+      except Exception as e:  # pylint: disable=broad-except
+        fails.append(('operative-text-does-not-parse', '%s: %s; text %r' % (type(e).__name__, str(e)[:160], text)))
+      else:
+        second = run_calls()
+        if second != first:
+          fails.append(('operative-replay-differs', 'calls %r received %r; after clearing and parsing the operative text %r they '
+                        'receive %r' % (targets, first, text, second)))
+        else:
+          text2 = gin.operative_config_str()
+          if text2 != text:
+            fails.append(('operative-text-not-reproduced', 'first %r, after the replay %r' % (text, text2)))
+      tags.append('targets%d' % min(len(targets), 3))
+      return {'obs': T('Done'), 'fails': fails[:2], 'nontrivial': len(targets) >= 2 and nrefs >= 1 and len(case) >= 2, 'tags': tags}
+    finally:
+      w.close()
+
+
+ENGINES = [OperEngine(), OperDynEngine()]
